@@ -3,6 +3,7 @@ import RbV.Lemmas.C15c
 import RbV.Lemmas.C15Gen
 import RbV.Thm.GenSrcProbs
 import RbV.Thm.GenSrcFastExp
+import RbV.Thm.GenSrcProbsQuad
 /-!
 # C15 — log-space probability arithmetic agrees with linear-space arithmetic (real-number theorems, PARTIAL)
 
@@ -449,5 +450,55 @@ theorem fastexp_source_below_cutoff (E : ℝ → ℝ) (x : ℝ) (h : x ≤ decR 
   ⟨GenSrcFastExp.fastexp_below E x h, GenSrcFastExp.fastexp_ninf E⟩
 
 example : ∃ x : ℝ, decR Gen.Scales.minVal < x ∧ x ≤ 0 := ⟨0, by rw [decR_eq]; unfold Gen.Scales.minVal; norm_num, le_rfl⟩
+
+/-! ### the translated integration helpers (`RbV/Gen/SrcProbsQuad.lean`): value-level statements
+
+`d i v : LP` are the (finite or `ln 0`) density values, `linspace` is abstract (itertools-num), `innerPts xs` are the grid
+points the text enumerates between the two ends (`.enumerate().dropping(1).dropping_back(1)`), with their indices. -/
+
+/-- the translated `ln_trapezoidal_integrate_exp` does not panic and returns the log of the trapezoid sum — weights
+1, 2, …, 2, 1 (cf. `trapezoid_terms_sum`), times `(b − a)/(2(n − 1))` — within `δ ·` that sum (the error of one `ln_sum_exp`) -/
+theorem ln_trapezoidal_source_error (E : ℝ → ℝ) (δ : ℝ) (h : ApproxExp E δ) (hδ : δ < 1) (linspace : XR → XR → Nat → List XR)
+    (d : Nat → XR → LP) (α β : ℝ) (hw : α < β) (n : Nat) (hn : 2 ≤ n) :
+    ∃ r : LP, Gen.SrcProbsQuad.ln_trapezoidal_integrate_exp (xrOps E) linspace (fun i v => emb (d i v)) (XR.fin α) (XR.fin β) n
+        = Rs.Res.ok (emb r) ∧
+      |lin r - (((innerPts (linspace (XR.fin α) (XR.fin β) n)).map fun it => 2 * lin (d it.1 it.2)).sum
+          + lin (d 0 (XR.fin α)) + lin (d n (XR.fin β))) * ((β - α) / (2 * (n - 1)))|
+        ≤ δ * ((((innerPts (linspace (XR.fin α) (XR.fin β) n)).map fun it => 2 * lin (d it.1 it.2)).sum
+          + lin (d 0 (XR.fin α)) + lin (d n (XR.fin β))) * ((β - α) / (2 * (n - 1)))) :=
+  GenSrcProbsQuad.trapezoid_error E δ h hδ linspace d α β hw n hn
+
+/-- the translated `ln_simpsons_integrate_exp` (odd `n`): weights 1, 4, 2, …, 4, 1 as the text computes them
+(`(2 + (i % 2) * 2) as f64`, cf. `simpson_weight`; no `usize` overflow), times `(b − a)/(3(n − 1))`, within `δ ·` the sum -/
+theorem ln_simpsons_source_error (E : ℝ → ℝ) (δ : ℝ) (h : ApproxExp E δ) (hδ : δ < 1) (linspace : XR → XR → Nat → List XR)
+    (d : Nat → XR → LP) (α β : ℝ) (hw : α < β) (n : Nat) (hn : 2 ≤ n) (hodd : n % 2 = 1) :
+    ∃ r : LP, Gen.SrcProbsQuad.ln_simpsons_integrate_exp (xrOps E) linspace (fun i v => emb (d i v)) (XR.fin α) (XR.fin β) n
+        = Rs.Res.ok (emb r) ∧
+      |lin r - (((innerPts (linspace (XR.fin α) (XR.fin β) n)).map fun it => (if it.1 % 2 = 1 then 4 else 2) * lin (d it.1 it.2)).sum
+          + lin (d 0 (XR.fin α)) + lin (d n (XR.fin β))) * ((β - α) / (3 * (n - 1)))|
+        ≤ δ * ((((innerPts (linspace (XR.fin α) (XR.fin β) n)).map fun it => (if it.1 % 2 = 1 then 4 else 2) * lin (d it.1 it.2)).sum
+          + lin (d 0 (XR.fin α)) + lin (d n (XR.fin β))) * ((β - α) / (3 * (n - 1)))) :=
+  GenSrcProbsQuad.simpson_error E δ h hδ linspace d α β hw n hn hodd
+
+/-- `innerPts` of a five-point grid are the points 1, 2, 3 with their indices (non-vacuity of the statements above) -/
+example (a b c d e : XR) : innerPts [a, b, c, d, e] = [(1, b), (2, c), (3, d)] := rfl
+
+/-- the translated `ln_trapezoidal_integrate_grid_exp` on a strictly increasing grid `gs` (`hinc`: every grid point from the
+second on is larger than its predecessor): no panic (`i − 1`, `grid[i − 1]`), and the result is the log of
+`Σᵢ (gᵢ − gᵢ₋₁)/2 · (f(i−1, gᵢ₋₁) + f(i, gᵢ))` (`gridCell`) within the accumulated bound: `δ + 10⁻¹⁵` for the pairwise
+`ln_add_exp` of each cell, then `δ` for the final `ln_sum_exp` -/
+theorem ln_trapezoidal_grid_source_error (E : ℝ → ℝ) (δ : ℝ) (h : ApproxExp E δ) (hδ : δ < 1) (d : Nat → XR → LP) (gs : List ℝ)
+    (hinc : ∀ it ∈ Rs.enumIdxFrom 1 gs.tail, gs.getD (it.1 - 1) 0 < it.2) :
+    ∃ r : LP, Gen.SrcProbsQuad.ln_trapezoidal_integrate_grid_exp (xrOps E) (fun i v => emb (d i v)) (gs.map XR.fin)
+        = Rs.Res.ok (emb r) ∧
+      |lin r - ((Rs.enumIdxFrom 1 gs.tail).map (GenSrcProbsQuad.gridCell d gs)).sum|
+        ≤ (δ * (1 + (δ + dropTol)) + (δ + dropTol)) * ((Rs.enumIdxFrom 1 gs.tail).map (GenSrcProbsQuad.gridCell d gs)).sum :=
+  GenSrcProbsQuad.grid_error E δ h hδ d gs hinc
+
+/-- the hypothesis is satisfiable: the grid 0, 1, 3 -/
+example : ∀ it ∈ Rs.enumIdxFrom 1 ([0, 1, 3] : List ℝ).tail, ([0, 1, 3] : List ℝ).getD (it.1 - 1) 0 < it.2 := by
+  intro it hit
+  simp only [List.tail_cons, Rs.enumIdxFrom, List.mem_cons, List.not_mem_nil, or_false] at hit
+  rcases hit with rfl | rfl <;> norm_num
 
 end RbV.Thm.C15
